@@ -1,0 +1,96 @@
+//go:build verif
+
+package sniproxy
+
+import (
+	"context"
+	"net"
+	"sync"
+	"time"
+)
+
+// VerifOffice exposes the side-connection mail office.
+type VerifOffice struct {
+	o     *connMailOffice
+	boxes map[[2]uint64]*connMailBox
+}
+
+// VerifNewOffice makes an empty office.
+func VerifNewOffice() *VerifOffice {
+	return &VerifOffice{o: newConnMailOffice(), boxes: map[[2]uint64]*connMailBox{}}
+}
+
+// NewBox registers a pending side dial.
+func (v *VerifOffice) NewBox(id, key uint64) {
+	v.boxes[[2]uint64{id, key}] = v.o.newBox(&sessionKey{ID: id, Key: key})
+}
+
+// Deliver hands a dialled-back connection in; it returns "ok", "notFound",
+// "keyMismatch" or another error text.
+func (v *VerifOffice) Deliver(id, key uint64, conn net.Conn) string {
+	err := v.o.deliver(&sessionKey{ID: id, Key: key}, conn)
+	switch {
+	case err == nil:
+		return "ok"
+	case err.Error() == "session not found":
+		return "notFound"
+	case err.Error() == "key mismatch":
+		return "keyMismatch"
+	}
+	return err.Error()
+}
+
+// Remove runs the box's cleanUp.
+func (v *VerifOffice) Remove(id, key uint64) {
+	if b := v.boxes[[2]uint64{id, key}]; b != nil {
+		b.cleanUp()
+	}
+}
+
+// Receive returns what the box (id, key) holds, without waiting long.
+func (v *VerifOffice) Receive(id, key uint64) (net.Conn, bool) {
+	b := v.boxes[[2]uint64{id, key}]
+	if b == nil {
+		return nil, false
+	}
+	ctx, cancel := context.WithTimeout(context.Background(), 20*time.Millisecond)
+	defer cancel()
+	c, err := b.receive(ctx)
+	return c, err == nil
+}
+
+// Registered reports whether the office has a box for id.
+func (v *VerifOffice) Registered(id uint64) (key uint64, ok bool) {
+	v.o.mu.Lock()
+	defer v.o.mu.Unlock()
+	b, ok := v.o.m[id]
+	if !ok {
+		return 0, false
+	}
+	return b.key.Key, true
+}
+
+// VerifSessionIDs draws n ids from each of g goroutines out of one counter.
+func VerifSessionIDs(g, n int) []uint64 {
+	ids := newSessionID()
+	var mu sync.Mutex
+	var out []uint64
+	var wg sync.WaitGroup
+	for i := 0; i < g; i++ {
+		wg.Add(1)
+		go func() {
+			defer wg.Done()
+			for k := 0; k < n; k++ {
+				id := ids.next()
+				mu.Lock()
+				out = append(out, id)
+				mu.Unlock()
+			}
+		}()
+	}
+	wg.Wait()
+	return out
+}
+
+// VerifIsRejectedDomain is the name policy applied before any dial.
+func VerifIsRejectedDomain(name string) bool { return isRejectedDomain(name) }
